@@ -200,6 +200,7 @@ impl Ctl {
             desc,
             acc: &mut self.acc,
             nontrivial: false,
+            sig_suffix: String::new(),
         };
         body(&mut cx);
         let nontrivial = cx.nontrivial;
@@ -221,12 +222,17 @@ pub struct CaseCtx<'a> {
     desc: &'a dyn Fn() -> String,
     pub acc: &'a mut Acc,
     pub nontrivial: bool,
+    /// appended to every violation signature (e.g. the kind of configuration)
+    pub sig_suffix: String,
 }
 
 impl CaseCtx<'_> {
     pub fn violation(&mut self, sig: impl Into<String>, msg: impl Into<String>) {
         self.acc.total_violations += 1;
-        let sig: String = sig.into();
+        let mut sig: String = sig.into();
+        if !self.sig_suffix.is_empty() {
+            sig = format!("{sig}:{}", self.sig_suffix);
+        }
         *self.acc.counters.entry(format!("violation[{sig}]")).or_insert(0) += 1;
         let same = self.acc.violations.iter().filter(|v| v.sig == sig).count();
         if same < 3 && self.acc.violations.len() < 300 {
